@@ -31,8 +31,9 @@ def env_base():
 
 
 def run_worker(mod_path, ob, tier, outdir, extra_env):
-    to = ob.timeout or TIER_DEFAULTS[tier]['timeout']
-    pto = ob.path_timeout or TIER_DEFAULTS[tier]['path_timeout']
+    # a per-obligation budget never undercuts the tier's default (harness files size it for the quick tier)
+    to = max(ob.timeout or 0, TIER_DEFAULTS[tier]['timeout'])
+    pto = max(ob.path_timeout or 0, TIER_DEFAULTS[tier]['path_timeout'])
     out = os.path.join(outdir, ob.name + '.json')
     if os.path.exists(out):
         os.unlink(out)
